@@ -1571,7 +1571,7 @@ struct const_subarray : array_types<T, D, ElementPtr, Layout> {
 	// using const_reverse_iterator [[deprecated]] = std::reverse_iterator<const_iterator>;
 
 	const_subarray(const_iterator first, const_iterator last)
-	: const_subarray(layout_type(first->layout(), first.stride(), 0, (last - first)*first->size()), first.base()) {
+	: const_subarray(layout_type(first->layout(), first.stride(), 0, (last - first)*first.stride()), first.base()) {
 		BOOST_MULTI_ASSERT(first->layout() == last->layout());
 	}
 
